@@ -140,12 +140,34 @@ Definition respond (d : bytes) (registered : list bytes) (produces : list bytes)
   end.
 
 (* ---- the realm marker (security.BasicAuthRealm) ---- *)
-Inductive basic_attempt := NoCreds | BadCreds | GoodCreds.
+(* what the request presents to the authenticator (net/http Request.BasicAuth decides):
+   NoCreds         no Authorization header (or an empty one)
+   BadCreds        Basic credentials that decode to user:password, refused by the authentication function
+   GoodCreds       Basic credentials accepted by the authentication function
+   MalformedCreds  an Authorization header of the Basic scheme that yields no user:password
+                   (scheme only, not base64, decoded text without a colon)
+   ForeignScheme   an Authorization header of another scheme (Bearer, Digest, ...)
+   Only BadCreds and GoodCreds reach the authentication function. Every attempt but GoodCreds is a
+   failed basic-auth attempt. *)
+Inductive basic_attempt := NoCreds | BadCreds | GoodCreds | MalformedCreds | ForeignScheme.
+(* Request.BasicAuth returned ok: the authentication function is consulted *)
+Definition attempt_has_credentials (a : basic_attempt) : bool :=
+  match a with BadCreds | GoodCreds => true | _ => false end.
 Definition API_REALM : bytes := [65; 80; 73].
 Definition effective_realm (realm : bytes) : bytes := match realm with [] => API_REALM | _ => realm end.
-(* the marker left on the request after the authenticator ran *)
+(* the marker left on the request after the authenticator ran (BasicAuthRealm and BasicAuthRealmCtx alike;
+   BasicAuth and BasicAuthCtx are the same with the realm API): without usable credentials the
+   authenticator records the realm and does not apply; with credentials it records the realm when the
+   authentication function returns an error *)
 Definition basic_marker (realm : bytes) (a : basic_attempt) : bytes :=
-  match a with GoodCreds => [] | _ => effective_realm realm end.
+  match a with
+  | GoodCreds => []
+  | BadCreds => effective_realm realm
+  | NoCreds | MalformedCreds | ForeignScheme => effective_realm realm
+  end.
+(* the marker found on a request that a basic authenticator (configured realm, attempt) examined, if any did *)
+Definition model_marker (auth : option (bytes * basic_attempt)) : bytes :=
+  match auth with Some (realm, a) => basic_marker realm a | None => [] end.
 
 (* ---- the pipeline of one operation: security, validation (response format), handler ---- *)
 Inductive auth_cfg :=
@@ -177,6 +199,9 @@ Definition serve (d : bytes) (registered : list bytes) (rt : route) (specs : lis
   | Basic realm NoCreds _ => serve_respond d registered rt specs head None (basic_marker realm NoCreds) (DError 401)
   | Basic realm BadCreds code => serve_respond d registered rt specs head None (basic_marker realm BadCreds) (DError code)
   | Basic realm GoodCreds _ => serve_validated d registered rt specs head (basic_marker realm GoodCreds) result
+  (* the authenticator does not apply, no other does: Authorize answers 401 invalid credentials, as for NoCreds *)
+  | Basic realm MalformedCreds _ => serve_respond d registered rt specs head None (basic_marker realm MalformedCreds) (DError 401)
+  | Basic realm ForeignScheme _ => serve_respond d registered rt specs head None (basic_marker realm ForeignScheme) (DError 401)
   end.
 
 (* ---- the route's produces (router.go AddRoute): the declared produces in their declared order, each once,
